@@ -448,6 +448,8 @@ var c03Aliasing = []string{
 	"%names.where(family = 'Smith').given", "%names.select(given)", "%names.given.distinct()", "%names.tail().family", "%names.exclude(%name)", "%names.intersect(%name)",
 	"%kids.where($this / 0)", "%kids.select(nosuchfield)", "%kids.first().nosuchfield", "%e.nosuchfield", "%kids.skip('a')", "%kids.take(%multi)",
 	"%fdnp = %fdnp", "%fdnp.toString()", "%fdtnp.toString()", "%fdtnp = %fdt", "%fdtnp < %fdt", "%ftnp.toString()", "%fdnp.toDateTime()", "%fdtnp.toDate()", "%fdnp + 1 day", "%fdtnp in %multi", "%ftnp = @T01:02:03",
+	"%multis.intersect(%fprims)", "%fprims.intersect(%fprims.skip(1))", "%fprims.intersect($this)", "%fprims.exclude(%fprims.take(2))", "%fprims.distinct()", "%fprims.select($this & 'x')", "%fprims.where($this = 'a')", "%fprims = %fprims",
+	"%tcoll.not()", "%fcoll.not()", "%tcoll.not() or %tcoll", "%multib.take(1).not()", "%multib.tail().not()", "%fprims.tail().take(1).toString()", "%fprims.first().toInteger()", "%fprims.skip(2).first() + 1", "-(%fprims.skip(2).first())",
 	"%kids.as(Patient)", "%kids.first() as Element", "%kids.first() is Element", "%r is DomainResource", "%r as Resource",
 }
 
@@ -471,8 +473,8 @@ func runC03(env *core.Env) {
 	}
 	// every function of the table x receivers x non-literal / aliasing arguments (arity 0..3): a function that
 	// writes into its argument nodes, or adopts an argument's collection as its result buffer, shows here
-	recvs := []string{"%kids", "%names", "%multi", "%fstr", "'5'", "5", "%r", "%e", "%sub", "Patient.name"}
-	a1 := []string{"%sub", "%kids.take(1)", "%e", "%kids", "%fstr", "%ucum", "%fint", "%fbool", "$this", "%context.id", "%name", "%multis.first()", "1", "'a'", "%multi.take(1)", "%kids.skip(1)"}
+	recvs := []string{"%fprims", "%tcoll", "%kids", "%names", "%multi", "%fstr", "'5'", "5", "%r", "%e", "%sub", "Patient.name"}
+	a1 := []string{"%fprims", "%fprims.skip(1)", "%sub", "%kids.take(1)", "%e", "%kids", "%fstr", "%ucum", "%fint", "%fbool", "$this", "%context.id", "%name", "%multis.first()", "1", "'a'", "%multi.take(1)", "%kids.skip(1)"}
 	a2 := []string{"%sub", "%e", "%fstr", "%fint", "$this", "%multi.take(1)"}
 	a3 := []string{"%sub", "%fstr", "%fint"}
 	var argLists []string
